@@ -110,6 +110,10 @@ type caseIn struct {
 	HostGo map[string]string
 	Reqs   []mountReq
 	Scen   string
+	// WorkDir: how Config.WorkDir spells the launcher's working directory ("" = absolute, as
+	// the CLI passes it; ".", "./", "x/.." = relative spellings of the same directory;
+	// "unset" = empty). It names the worker's cwd; what is mounted where does not depend on it.
+	WorkDir string
 	// B
 	Rootfs string // as handed over (may be relative)
 	BCwd   string
@@ -131,6 +135,7 @@ type rec struct {
 	GOCACHE  string            `json:"gocache"`
 	SelfExe  string            `json:"selfexe"`
 	Scen     string            `json:"scenario"`
+	WorkDir  string            `json:"workdir_spelling,omitempty"`
 	Paths    []string          `json:"paths"`
 	Classes  []string          `json:"spelling_classes"`
 	ModelAbs []string          `json:"model_abs"`
@@ -145,7 +150,7 @@ type pmRec struct{ Dest, Type, Source string }
 
 func (in *caseIn) rec(cwdSeen string, observed any) *rec {
 	r := &rec{Monitor: in.Mon, Base: q(in.Base), Ops: in.Ops, CwdDir: q(in.Cwd.Dir), PWD: q(in.Cwd.PWD), CwdClass: in.Cwd.Class,
-		CwdSeen: q(cwdSeen), GOROOT: q(in.GOROOT), GOCACHE: q(in.GOCACHE), SelfExe: q(in.SelfExe), Scen: in.Scen,
+		CwdSeen: q(cwdSeen), GOROOT: q(in.GOROOT), GOCACHE: q(in.GOCACHE), SelfExe: q(in.SelfExe), Scen: in.Scen, WorkDir: in.WorkDir,
 		Rootfs: q(in.Rootfs), BCwd: q(in.BCwd), LookFail: in.LookFail, HostGo: in.HostGo, Observed: observed}
 	for _, m := range in.Reqs {
 		r.Paths = append(r.Paths, q(m.Path))
@@ -277,6 +282,7 @@ func runBatchA(p *part, root string, b int) {
 			in.SelfExe, _ = os.Executable()
 		}
 		in.Reqs, in.Scen = genMounts(r, t, cwd)
+		in.WorkDir = []string{"", "", "", "", "", ".", "./", "x/..", "unset"}[r.Intn(9)]
 		execA(p, in)
 	}
 }
@@ -304,6 +310,15 @@ func execA(p *part, in *caseIn) {
 	defer applyHostGo(nil)
 	hookReset()
 	cfg := sandbox.Config{Args: []string{"internal-worker", "scan"}, WorkDir: cwd}
+	switch in.WorkDir {
+	case "":
+	case "unset":
+		cfg.WorkDir = ""
+		p.Count("A_workdir_not_absolute", 1)
+	default:
+		cfg.WorkDir = in.WorkDir
+		p.Count("A_workdir_not_absolute", 1)
+	}
 	c := &octx{SelfExe: in.SelfExe, Gocache: in.GOCACHE, User: map[string]bool{}}
 	var abs []string
 	resIdx := -1
